@@ -3,6 +3,11 @@
 import json, subprocess, sys
 
 claimed = {
+ "C01": dict(
+   text="The reader half of the round trip is under deductive contracts shared with C02/C04 (key lines: parseKeyValueLine against the rune-level key rule; the configuration index; parseBenchmarkLine keeps the written value/unit pair whenever it rescales).  The writer's diffing of configurations (writeResult/writeFileConfig: map of struct values, overlapping copy, fmt.Fprintf into a buffer) is NOT under contract in this build; the round-trip statement itself is checked by a bounded stand-in: exhaustive 2-step and sampled 3-step configuration histories over {absent, file, internal} (which exposed the missing deletion on a file-to-internal transition — fixed), all special float values in plain and rescaled units, and seeded random streams with API edits.",
+   note="The deciding evidence for the write/read equality is bounded, not a proof; proved obligations concern the reader's line rules only.  Float text: %v shortest round-trip formatting and strconv are trusted.",
+   technique="contract-based deductive verification of the reader side (own VC generator over go/ssa) + bounded write/read round trip for the writer",
+   design="5/C01"),
  "C19": dict(
    text="Deductive proof of the query algebra: part.merge — several terms on one key mean their conjunction: for every pair of parts (equality, <, >, range, every combination, bytewise string order) the merged part is satisfied by exactly the non-empty values satisfying both, and io.EOF is returned only when no value satisfies both (130 paths, all operand orders); the solver's counterexample for a broken merge is replayed on the real code.  SplitWords is proved panic-free and terminating and returns only non-empty words.  The splitting rule and the front end's quoting (addToQuery then SplitWords gives back exactly the original word) are covered by an exhaustive bounded round trip; SQL execution, record coalescing, the legacy printer/reader, HTTP and the upload listing are out of reach and not claimed.",
    note="Trusted: bytewise string order is modelled by an injective rank into the non-negative integers with the empty string least; io.EOF is non-nil.  Not covered: storage/db SQL, storage/benchfmt, storage/app, client.",
